@@ -236,11 +236,11 @@ func TestVerifC14SafePoint(t *testing.T) {
 						if ts < sp {
 							switch {
 							case err == nil:
-								r.Violate("safepoint:served-below-safepoint:"+op.name, fmt.Sprintf("%s: %s at ts %d below the cached txn safe point %d was served (%d pairs)", be, op.name, ts, sp, len(got)), detail)
+								viol(r, be, "safepoint:served-below-safepoint:"+op.name, fmt.Sprintf("%s: %s at ts %d below the cached txn safe point %d was served (%d pairs)", be, op.name, ts, sp, len(got)), detail)
 							case !errors.As(err, &ab):
-								r.Violate("safepoint:wrong-error-below-safepoint:"+op.name, fmt.Sprintf("%s: %s at ts %d below the cached txn safe point %d failed with %s, not with the aborted-by-GC error", be, op.name, ts, sp, es(err)), detail)
+								viol(r, be, "safepoint:wrong-error-below-safepoint:"+op.name, fmt.Sprintf("%s: %s at ts %d below the cached txn safe point %d failed with %s, not with the aborted-by-GC error", be, op.name, ts, sp, es(err)), detail)
 							case len(got) > 0:
-								r.Violate("safepoint:data-before-refusal:"+op.name, fmt.Sprintf("%s: %s at ts %d below the cached txn safe point %d delivered %d pairs before the error", be, op.name, ts, sp, len(got)), detail)
+								viol(r, be, "safepoint:data-before-refusal:"+op.name, fmt.Sprintf("%s: %s at ts %d below the cached txn safe point %d delivered %d pairs before the error", be, op.name, ts, sp, len(got)), detail)
 							default:
 								r.Count("refused", 1)
 							}
@@ -251,7 +251,7 @@ func TestVerifC14SafePoint(t *testing.T) {
 							if errors.As(err, &ab) {
 								sig = "safepoint:refused-at-or-above-safepoint:"
 							}
-							r.Violate(sig+op.name, fmt.Sprintf("%s: %s at ts %d (cached txn safe point %d) failed: %s", be, op.name, ts, sp, es(err)), detail)
+							viol(r, be, sig+op.name, fmt.Sprintf("%s: %s at ts %d (cached txn safe point %d) failed: %s", be, op.name, ts, sp, es(err)), detail)
 							continue
 						}
 						w := want(ts)
@@ -261,7 +261,7 @@ func TestVerifC14SafePoint(t *testing.T) {
 						}
 						if fmt.Sprint(w) != fmt.Sprint(got) {
 							detail["expected"] = fmt.Sprint(w)
-							r.Violate("safepoint:wrong-data-at-or-above-safepoint:"+op.name, fmt.Sprintf("%s: %s at ts %d (cached txn safe point %d) returned %v, the truth at that ts is %v", be, op.name, ts, sp, got, w), detail)
+							viol(r, be, "safepoint:wrong-data-at-or-above-safepoint:"+op.name, fmt.Sprintf("%s: %s at ts %d (cached txn safe point %d) returned %v, the truth at that ts is %v", be, op.name, ts, sp, got, w), detail)
 							continue
 						}
 						r.Count("served", 1)
@@ -276,7 +276,7 @@ func TestVerifC14SafePoint(t *testing.T) {
 				s.SetScanBatchSize(2)
 				it, err := s.Iter([]byte("k"), []byte("l"))
 				if err != nil {
-					r.Violate("safepoint:failed-at-or-above-safepoint:iter", fmt.Sprintf("%s: Iter at ts %d failed: %s", be, ts, es(err)), nil)
+					viol(r, be, "safepoint:failed-at-or-above-safepoint:iter", fmt.Sprintf("%s: Iter at ts %d failed: %s", be, ts, es(err)), nil)
 					continue
 				}
 				steps := rng.Intn(3)
@@ -305,9 +305,9 @@ func TestVerifC14SafePoint(t *testing.T) {
 				detail := map[string]any{"backend": be, "read_ts": ts, "pairs_before_raise": n, "pairs_after_raise": after, "scan_rpcs_after_raise": scansAfter, "error": es(err)}
 				switch {
 				case scansAfter > 0 && err == nil:
-					r.Violate("safepoint:scan-continued-after-raise", fmt.Sprintf("%s: the txn safe point was raised above the scan's ts %d; %d scan requests later the scan ended without error", be, ts, scansAfter), detail)
+					viol(r, be, "safepoint:scan-continued-after-raise", fmt.Sprintf("%s: the txn safe point was raised above the scan's ts %d; %d scan requests later the scan ended without error", be, ts, scansAfter), detail)
 				case err != nil && !errors.As(err, &ab):
-					r.Violate("safepoint:wrong-error-below-safepoint:iter-mid-scan", fmt.Sprintf("%s: scan at ts %d failed with %s after the raise", be, ts, es(err)), detail)
+					viol(r, be, "safepoint:wrong-error-below-safepoint:iter-mid-scan", fmt.Sprintf("%s: scan at ts %d failed with %s after the raise", be, ts, es(err)), detail)
 				case err != nil:
 					r.Count("scans_cut_by_a_raise", 1)
 					r.Distinct(fmt.Sprintf("%s|iter-mid-scan|steps=%d", be, steps))
